@@ -207,6 +207,26 @@ pub fn run(ctx: &mut Ctx) {
             asr_m.insert(at, twice);
             asr_m.truncate(kmax.max(2));
         }
+        // assertions RELATED to other parts of the same envelope (different digests, so all of them belong to the
+        // set): the bare core of a decorated assertion next to the decorated one; an assertion that is the subject
+        if case % 7 == 3 {
+            ctx.count("related_assertion_elements");
+            let bare = M::Assertion(Box::new(M::Leaf(Item::Text("knows".into()))), Box::new(M::Leaf(Item::UInt(case + 1))));
+            let salted = M::Node(Box::new(bare.clone()), vec![M::Assertion(Box::new(M::Known(15)), Box::new(M::Leaf(Item::Bytes(rng.bytes(8)))))]);
+            asr_m.truncate(kmax.max(3) - 2);
+            let at = rng.below(asr_m.len() + 1);
+            asr_m.insert(at, salted);
+            let at = rng.below(asr_m.len() + 1);
+            asr_m.insert(at, bare);
+        }
+        let (subject_m, asr_m) = if case % 7 == 5 && !asr_m.is_empty() {
+            // the subject is itself an assertion that also occurs among the assertions
+            ctx.count("subject_occurs_among_assertions");
+            let a = asr_m[0].clone();
+            if matches!(a, M::Assertion(..)) { (a, asr_m) } else { (subject_m, asr_m) }
+        } else {
+            (subject_m, asr_m)
+        };
         // distinct assertions only: one digest must not appear in two different forms (plain and
         // obscured), otherwise "the same set" is ill-defined - whichever form is added first stays
         let asr_m: Vec<M> = {
